@@ -583,7 +583,7 @@ func CheckC08(tier string, seed uint64) int {
 		Coverage: map[string]any{
 			"evaluations":         execs + refusedStatically,
 			"distinct_nontrivial": len(shapes),
-			"rule": "one evaluation = one execution of a compiled generated program (seeded history of literal construction, append, element assignment, indexing and len over []i32/[]i64/[]u8/[]bool/[]str and strings; literal, negative, const, opaque, loop-carried and len-relative indices) under one simulated stdio sink, or one compile-time refusal; " +
+			"rule": "one evaluation = one execution of a compiled generated program (seeded history of literal construction, append, element assignment, indexing and len over []i32/[]i64/[]u8/[]bool/[]str and strings; literal, negative, const, opaque, i64/u32/u64, variable, loop-carried and len-relative indices; re-assignments on one path, in loops, from other arrays, through closures and by-value parameters) under one simulated stdio sink, or one compile-time refusal; " +
 				"the list model gives the exact expected stdout and whether and where the program must stop. distinct_nontrivial = distinct (history shape, sink) pairs",
 			"samples":                                 []any{map[string]any{"source": progs[0].Source, "expected_stdout": progs[0].Expected, "panics": progs[0].Panics, "sinks": sinks[0]}, map[string]any{"source": progs[1].Source, "expected_stdout": progs[1].Expected, "panics": progs[1].Panics}},
 			"programs":                                nProg,
@@ -594,7 +594,7 @@ func CheckC08(tier string, seed uint64) int {
 			"executions":                              execs,
 			"executions_of_panicking_programs":        panicsRun,
 			"executions_by_sink":                      sinkRuns,
-			"fault_kinds":                             map[string]any{"broken_sink_executions": broken, "kinds": "reader closes after k bytes (EPIPE/SIGPIPE), /dev/full (ENOSPC), 4 KiB pipe drained in seeded chunk sizes, panic (abort) with buffered output in flight"},
+			"fault_kinds":                             map[string]any{"broken_sink_executions": broken, "kinds": "reader closes after k bytes (EPIPE/SIGPIPE), /dev/full (ENOSPC), 4 KiB pipe drained in seeded chunk sizes, 4 KiB pipe whose reader only reads when the writer has stalled (pipe full at the panic), panic (abort) with buffered output in flight"},
 			"probe_valid_reads_of_appended_positions": vaa,
 			"probe_negative_index_reads":              neg,
 			"probe_appends":                           apps,
